@@ -39,11 +39,24 @@ type c05P[P curves.Point[P, F, S], F algebra.FiniteFieldElement[F], S algebra.Pr
 	hLog   S // log_G H, known to the harness only (used to build a second opening)
 	scheme *pedersen.Scheme[P, S]
 	M      *c05Msp[S]
+	// object-reuse mode (c05_reuse.go), as in c05F
+	obj   *pedersen.VerificationVector[P, S]
+	shObj *pedersen.Share[S]
+}
+
+func (x *c05P[P, F, S]) tag() string {
+	if x.obj != nil || x.shObj != nil {
+		return "@reuse"
+	}
+	return ""
 }
 
 func (x *c05P[P, F, S]) pre() string { return x.curve + " " + x.M.ctx() + " " + pointStr(x.h) }
 
 func (x *c05P[P, F, S]) buildVV(pts []P) (*pedersen.VerificationVector[P, S], error) {
+	if x.obj != nil {
+		return x.obj, nil
+	}
 	mod, err := mat.NewModuleValuedColumnVectorModule(uint(len(pts)), algebra.FiniteModule[P, S](x.group))
 	if err != nil {
 		return nil, err
@@ -56,6 +69,9 @@ func (x *c05P[P, F, S]) buildVV(pts []P) (*pedersen.VerificationVector[P, S], er
 }
 
 func (x *c05P[P, F, S]) mkShare(id sharing.ID, sh c05PShare[S]) (*pedersen.Share[S], error) {
+	if x.shObj != nil {
+		return x.shObj, nil
+	}
 	ss, err := kw.NewShare(id, sh.s...)
 	if err != nil {
 		return nil, err
@@ -82,8 +98,8 @@ func (x *c05P[P, F, S]) verify(kind string, pts []P, id sharing.ID, sh c05PShare
 		}
 		return "accept"
 	})
-	x.c.Count("pverify." + kind + "." + res)
-	x.c.Emit(fmt.Sprintf("pverify %s %s %s %d %s %s", kind, x.pre(), pointsStr(pts), id, scalarsHex(sh.s), scalarsHex(sh.b)), res)
+	x.c.Count("pverify" + x.tag() + "." + kind + "." + res)
+	x.c.Emit(fmt.Sprintf("pverify%s %s %s %s %d %s %s", x.tag(), kind, x.pre(), pointsStr(pts), id, scalarsHex(sh.s), scalarsHex(sh.b)), res)
 	return res
 }
 
@@ -222,8 +238,8 @@ func (x *c05P[P, F, S]) recVer(kind string, pts []P, shares map[sharing.ID]c05PS
 		}
 		return "ok:" + scalarHex(sec.Value())
 	})
-	x.c.Count("precver." + kind + "." + strings.SplitN(res, ":", 2)[0])
-	x.c.Emit(fmt.Sprintf("precver %s %s %s %s", kind, x.pre(), pointsStr(pts), pSharesStr(shares, order)), res)
+	x.c.Count("precver" + x.tag() + "." + kind + "." + strings.SplitN(res, ":", 2)[0])
+	x.c.Emit(fmt.Sprintf("precver%s %s %s %s %s", x.tag(), kind, x.pre(), pointsStr(pts), pSharesStr(shares, order)), res)
 }
 
 // sum: VerificationVector.Op over several dealings and Share.Add for one holder, then Verify.
@@ -492,6 +508,8 @@ func c05Pedersen[P curves.Point[P, F, S], F algebra.FiniteFieldElement[F], S alg
 			break
 		}
 	}
+	// 10. objects used, changed in place and used again (c05_reuse.go)
+	x.reuse(d, as)
 }
 
 func (x *c05P[P, F, S]) verifyQuiet(pts []P, id sharing.ID, sh c05PShare[S]) string {
